@@ -46,6 +46,10 @@ def run(args):
         extra_rules += rules_table.check_smalladj(rep, "C06")
     except ImportError:
         rep.notes.append("R-TABLE (smallAdj = structure constants) not built yet")
+    from . import rules_poly
+    n_adj = rules_poly.check_adj(rep, "C06")
+    rep.floor("poly_adj_cells", n_adj, 240)
+    extra_rules.append("C06.d R-POLY.adj (exact): for every group X.adj() e_i = vee(T(X) E_i T(X^-1)) cell by cell over the polynomial ring modulo |rotation| = 1, i.e. X.adj() s IS the vector of X hat(s) X^-1 (and Adj(XY) = Adj(X)Adj(Y) follows with C01)")
     from . import rules_jet
     JAC = {("manif::SE2TangentBase", "ljac"), ("manif::SE2TangentBase", "rjacinv"), ("manif::SE2TangentBase", "ljacinv"),
            ("manif::SO3TangentBase", "ljac"), ("manif::SO3TangentBase", "ljacinv"), ("manif::SE3TangentBase", "fillQ"),
@@ -60,6 +64,6 @@ def run(args):
     ] + extra_rules
     rep.units = rr.tags
     rep.trusted = ["clang 14 AST / constant folding", "Eigen block API semantics"]
-    rep.assumptions = ["NOT decided: rjacinv*rjac = I, Adj(exp t) = ljac*rjacinv, series identity, rounding behaviour above the switch-over (numerical)"]
+    rep.assumptions = ["NOT decided: rjac = series of ad, rjacinv*rjac = I, Adj(exp t) = ljac*rjacinv as numerical statements; rounding behaviour above the switch-over"]
     rep.checker_cmd = "manif-sa plugin (mode=funcs) + engine/rules_out.py"
     return rep.finish()
